@@ -245,3 +245,57 @@ def backward_slice(block: Sequence[ast.stmt], upto: int, names: Set[str], stop: 
             keep.append(k)
             need |= loaded_names(st) - set(stop)
     return [block[k] for k in sorted(keep)]
+
+
+def merge_default_override(block: Sequence[ast.stmt]) -> List[ast.stmt]:
+    """`x = A` directly followed by `if t: x = B` (no else, t does not read x, A a constant or name)  ->  `x = B if t else A`."""
+    out: List[ast.stmt] = []
+    k = 0
+    block = list(block)
+    while k < len(block):
+        st = block[k]
+        nxt = block[k + 1] if k + 1 < len(block) else None
+        if (
+            isinstance(st, ast.Assign)
+            and len(st.targets) == 1
+            and isinstance(st.targets[0], ast.Name)
+            and isinstance(st.value, (ast.Constant, ast.Name))
+            and isinstance(nxt, ast.If)
+            and not nxt.orelse
+            and len(nxt.body) == 1
+            and isinstance(nxt.body[0], ast.Assign)
+            and len(nxt.body[0].targets) == 1
+            and isinstance(nxt.body[0].targets[0], ast.Name)
+            and nxt.body[0].targets[0].id == st.targets[0].id
+            and st.targets[0].id not in loaded_names(nxt.test)
+        ):
+            merged = ast.Assign(targets=[ast.Name(id=st.targets[0].id, ctx=ast.Store())], value=ast.IfExp(test=nxt.test, body=nxt.body[0].value, orelse=st.value))
+            out.append(ast.fix_missing_locations(ast.copy_location(merged, nxt)))
+            k += 2
+            continue
+        out.append(st)
+        k += 1
+    return out
+
+
+def inline_local_lambdas(fn: ast.FunctionDef) -> ast.FunctionDef:
+    """A copy of fn in which nested single-return defs are removed and their uses as values replaced by the equivalent lambda."""
+    lams = lambdaize(fn)
+    if not lams:
+        return fn
+    new = copy.deepcopy(fn)
+
+    class _T(ast.NodeTransformer):
+        def visit_FunctionDef(self, n: ast.FunctionDef):
+            if n is not new and n.name in lams:
+                return None
+            self.generic_visit(n)
+            return n
+
+        def visit_Name(self, n: ast.Name):
+            if isinstance(n.ctx, ast.Load) and n.id in lams:
+                return copy.deepcopy(lams[n.id])
+            return n
+
+    new = _T().visit(new)
+    return ast.fix_missing_locations(new)
